@@ -104,6 +104,11 @@ def r1_traversal(ctx):
             ctx.violation('R1', at, f.qualname, 'pop-discipline', f'pop `{src(pop.expr)}` is neither LIFO nor FIFO')
     mt = ctx.prog.func(f'{N.DOCUMENT}.MultistageTree.dfs_iterative')
     calls = [src(c) for c in walk_local(mt.node) if isinstance(c, ast.Call)]
+    if calls != [f'self.root.dfs_iterative({mt.params[1]})'] and not any('.dfs_iterative(' in c_ for c_ in calls) \
+            and not any(c_.startswith('self.root.') for c_ in calls):
+        # the tree no longer delegates to the node walk (its own loop, a generator of nodes): another traversal, not followed here.
+        # A delegation that starts somewhere else than the root is still reported below.
+        raise AnalysisError(f'{mt.loc}: MultistageTree.dfs_iterative does not delegate to Node.dfs_iterative any more ({calls[:2]}): not followed')
     ctx.check(calls == [f'self.root.dfs_iterative({mt.params[1]})'], 'R1', mt.loc, mt.qualname, 'tree-traversal-starts-at-root',
               'the tree traversal starts at the root with the caller\'s visitor', f'MultistageTree.dfs_iterative does {calls}')
 
